@@ -788,9 +788,18 @@ def _handler_names(h):
     return [norm(e).split('.')[-1] for e in els]
 
 
-RULES = [rule_mirror, rule_chunks, rule_encoder_twins, rule_cleanup_loop,
-         rule_link_agreement, rule_path_stack, rule_apply_diff,
-         rule_expand_all_isolation]
+def _inl(rule):
+    """Run a rule on the view in which helpers that are new w.r.t. the
+    reference tree are inlined at their call sites (normalise.N2)."""
+    def run(model):
+        return rule(model.inlined_view())
+    run.__name__ = rule.__name__
+    return run
+
+
+INLINED_VIEW = False
+RULES_PLAIN = [rule_mirror, rule_chunks, rule_encoder_twins, rule_cleanup_loop, rule_link_agreement, rule_path_stack, rule_apply_diff, rule_expand_all_isolation]
+RULES = [_inl(r_) for r_ in RULES_PLAIN] if INLINED_VIEW else RULES_PLAIN
 EXPLANATION = (
     'Stage extraction of the encoder and decoder pipelines and comparison '
     'of the decoder with the reversed inverse stage list; arithmetic '
